@@ -1,5 +1,5 @@
 #!/bin/bash
 # usage: only.sh <prop> <patch> <only-regex>
 cd /repo && git apply "$2" || exit 3
-cd /verif && ./check "$1" -only "$3" 2>&1 | grep -E "^VIOLATION|quick:|VACUITY" | cut -c1-330
+cd /verif && GOVC_EVIDENCE_DIR=/verif/out/evidence_seed ./check "$1" -only "$3" 2>&1 | grep -E "^VIOLATION|quick:|VACUITY" | cut -c1-330
 git -C /repo checkout -- .
